@@ -234,23 +234,43 @@ func ruleCmd(c *Ctx) {
 				if w, what := isStdoutWrite(i); w {
 					nOut++
 					key := fmt.Sprintf("%s: standard-output write #%d (%s) happens only after every failure point", fname(fn), nOut, what)
-					// no error-yielding call may be reachable after the write
+					// no error-yielding call may be reachable after the write — in this function, and,
+					// when the write sits in a helper, after the helper's call in its callers
 					bad := ""
-					for ins := range reachableAfter(b, i) {
-						if ci, ok := ins.(*ssa.Call); ok {
-							if f := ci.Call.StaticCallee(); f != nil {
-								if nr, _ := isNonReturningCall(ci); nr {
-									continue
-								}
-								if b.inRepoLib(f) || stdName(f) == "io/ioutil.ReadAll" || stdName(f) == "io.ReadAll" || stdName(f) == "os.ReadFile" || stdName(f) == "io/ioutil.ReadFile" {
-									bad = "the fallible call " + calleeLabel(&ci.Call) + " at " + b.posOf(ci) + " can still run after output has been written (partial output on failure)"
+					var after func(at ssa.Instruction, depth int)
+					after = func(at ssa.Instruction, depth int) {
+						if depth > 4 {
+							bad = "the write is nested too deeply in helpers to follow"
+							return
+						}
+						for ins := range reachableAfter(b, at) {
+							if ci, ok := ins.(*ssa.Call); ok && ins != at {
+								if f := ci.Call.StaticCallee(); f != nil {
+									if nr, _ := isNonReturningCall(ci); nr {
+										continue
+									}
+									if b.inRepoLib(f) || stdName(f) == "io/ioutil.ReadAll" || stdName(f) == "io.ReadAll" || stdName(f) == "os.ReadFile" || stdName(f) == "io/ioutil.ReadFile" {
+										bad = "the fallible call " + calleeLabel(&ci.Call) + " at " + b.posOf(ci) + " can still run after output has been written (partial output on failure)"
+									}
 								}
 							}
 						}
+						host := at.Parent()
+						if host == mainFn {
+							return
+						}
+						sites := 0
+						for _, g := range fns {
+							for _, cs := range callsTo(g, func(cc *ssa.CallCommon) bool { return cc.StaticCallee() == host }) {
+								sites++
+								after(cs, depth+1)
+							}
+						}
+						if sites == 0 {
+							bad = "standard output is written in " + fname(host) + ", which nothing in the command calls"
+						}
 					}
-					if fn != mainFn {
-						bad = "standard output is written outside main"
-					}
+					after(i, 0)
 					add(key, b.posOf(i), bad == "", "no fallible library or I/O call is reachable after this write", bad)
 				}
 			})
@@ -447,7 +467,12 @@ func ruleCmd(c *Ctx) {
 				}
 				if bad == "" {
 					printed := false
-					allInstrs(mainFn, func(i ssa.Instruction) {
+					forAll := func(f func(ssa.Instruction)) {
+						for _, g := range fns {
+							allInstrs(g, f)
+						}
+					}
+					forAll(func(i ssa.Instruction) {
 						w, what := isStdoutWrite(i)
 						if !w {
 							return
@@ -665,6 +690,7 @@ func ruleCmd(c *Ctx) {
 			key := "(iv) FileFlag.UnmarshalFlag rejects a missing path and a directory"
 			bad := ""
 			var stat *ssa.Call
+			chk := uf // the function that holds the check: the method, or the helper it calls
 			allInstrs(uf, func(i ssa.Instruction) {
 				if ci, ok := i.(*ssa.Call); ok {
 					if f := ci.Call.StaticCallee(); f != nil && stdName(f) == "os.Stat" {
@@ -673,8 +699,45 @@ func ruleCmd(c *Ctx) {
 				}
 			})
 			if stat == nil {
+				// the check extracted into a helper of the command: its error must fail the flag
+				for _, hc := range callsTo(uf, func(cc *ssa.CallCommon) bool { f := cc.StaticCallee(); return f != nil && inCmd[f] && len(f.Blocks) > 0 }) {
+					h := hc.Common().StaticCallee()
+					var st2 *ssa.Call
+					allInstrs(h, func(i ssa.Instruction) {
+						if ci, ok := i.(*ssa.Call); ok {
+							if f := ci.Call.StaticCallee(); f != nil && stdName(f) == "os.Stat" {
+								st2 = ci
+							}
+						}
+					})
+					if st2 == nil {
+						continue
+					}
+					passes := false
+					for _, e := range errResultOf(hc) {
+						for _, t := range nilTests(uf, e) {
+							if b.rejects(t.Blk.Succs[t.NonNilSucc]) {
+								passes = true
+							}
+						}
+					}
+					if hcCall, ok := hc.(*ssa.Call); ok && !passes {
+						// `return helper(x)`: the helper's error is the method's
+						for _, r := range returnsOf(uf) {
+							if len(r.Results) == 1 && r.Results[0] == ssa.Value(hcCall) {
+								passes = true
+							}
+						}
+					}
+					if passes {
+						stat, chk = st2, h
+					}
+				}
+			}
+			if stat == nil {
 				bad = "os.Stat is not consulted"
 			} else {
+				uf := chk
 				okErr := false
 				for _, e := range errResultOf(stat) {
 					for _, t := range nilTests(uf, e) {
